@@ -245,3 +245,21 @@ func (ss *segmentStack) isEmpty() bool {
 	}
 	return true
 }
+
+// hasMergeOperations returns true when a segment of this stack, or of
+// any of its child stacks, holds a merge operation that has not been
+// resolved into a set or deletion yet.
+func (ss *segmentStack) hasMergeOperations() bool {
+	for _, seg := range ss.a {
+		a, ok := seg.(*segment)
+		if !ok || a.totOperationMerge > 0 {
+			return true
+		}
+	}
+	for _, childSegStack := range ss.childSegStacks {
+		if childSegStack.hasMergeOperations() {
+			return true
+		}
+	}
+	return false
+}
